@@ -1,0 +1,32 @@
+//go:build verif
+
+// Hooks for the deterministic-simulation checks in /verif (build tag verif).
+// Add-only: with the tag off this file does not exist for the compiler.
+
+package db19
+
+import . "github.com/apmckinlay/gsuneido/core"
+
+// VerifStartState returns the snapshot the checker gave the transaction when it started.
+func (t *UpdateTran) VerifStartState() *DbState {
+	return t.ct.state
+}
+
+// VerifSeq returns the checker sequence numbers of the transaction
+// (end is math.MaxInt until the transaction has ended).
+func (t *UpdateTran) VerifSeq() (start, end int) {
+	return t.ct.start, t.ct.end
+}
+
+// VerifStateLen and VerifTailSize export file format constants
+// so that a crash oracle does not have to hard-code them.
+const VerifStateLen = stateLen
+const VerifTailSize = tailSize
+
+// VerifReset clears process-global state between simulated runs.
+func VerifReset() {
+	nextReadTran.Store(0)
+	tsLock.Lock()
+	timestamp = SuDate{}
+	tsLock.Unlock()
+}
